@@ -8,7 +8,7 @@ from . import c18 as c18gen
 KEYS = ["resclass"]
 REF_FROM_MODEL = True
 PROFILES = ["rel", "chk"]
-SHARD_TIMEOUT = 900
+SHARD_TIMEOUT = 2400
 RULE = ("all 65536 first words x %d adversarial register files (0, 1, 0xFFFFFFFF, 0x7FFFFFFF, 0x80000000, region edges, odd values) x random CCR x "
         "random bus-controller settings, code placed at region ends and in unmapped space; TRAPA #0 with adversarial argument blocks; "
         "timer / port register histories with every TCR value (also unimplemented clock selections) and programs that program the timer and keep running; control-line fuzz through run(); both build profiles; distinct = distinct (opcode words, registers, outcome)")
